@@ -1,6 +1,7 @@
 import KdVerif.Props.C02
 import KdVerif.Proofs.ContainerV3
 import KdVerif.Proofs.Blocks
+import KdVerif.Proofs.EndToEnd
 /-
   C03 — a version-3 dump yields all chunked events, then logs, plus metadata sections.
 
@@ -21,6 +22,9 @@ import KdVerif.Proofs.Blocks
   * `v3_blocks` — metadata = payloads (last wins for processes/images, concatenation in file order for
     kexts/dyld/trace codes), logs of all log blocks in order, numbered, resolved through the LAST string
     block, tables extended by the logs that name a process and a thread.
+  * end to end (`Model/EndToEnd.lean`): `e2e_dump_of_encoded_v3`, `e2e_threadmap_of_encoded_v3`,
+    `e2e_lines_of_encoded_v3` (+ `_ok`), `e2e_lines_chunking_v3` — what `PyKdebugParser.traces` /
+    `formatted_traces` work on for an encoded v3 file, and the lines.
   ASSUMPTIONS of the specification (not findings): "the dump's string index" = the last string block;
   plist payloads are opaque (`BlockOk` says what must load); OsLogEvent is reduced to cm/tid/p/pid.
 -/
@@ -156,6 +160,126 @@ theorem v3_blocks (plist : Bytes → Option PView) (prior : PState) (f : V3File)
   · rw [g5]; rfl
   · rw [g4]; rfl
 
+
+/-! ### end to end: what the trace layer and the line builder receive from an encoded v3 file (`Model/EndToEnd.lean`) -/
+
+/-- The thread-map chunk as the trace layer receives it: `(tid, pid, name)` in file order, the name bytes decoded
+    (`CString('utf8')`). -/
+def fileThreadMap (f : V3File) : Declared.ThreadMap :=
+  f.threads.map fun t => (t.tid, t.pid, EndToEnd.utf8 t.name)
+
+theorem threadMapOf_entries (f : V3File) : EndToEnd.threadMapOf (f.threads.map toEntry) = fileThreadMap f := by
+  simp only [EndToEnd.threadMapOf, fileThreadMap, List.map_map]
+  rfl
+
+/-- **C03 composed with C01, at the entry of the trace layer.**  For every well-formed v3 file whose cpu_info payload
+    loads — any header, filler and gaps, any thread-map chunk, ANY chunking of the records, any blocks: what
+    `PyKdebugParser.traces` / `formatted_traces` work on is exactly the thread-map chunk's entries (in file order) and
+    exactly the decodings of the records of ALL chunks (C01's `specDecode`, in file order) — the log records are not
+    among them (`kevents` drops them) —, and the exception the container reader ends with, AFTER every event has been
+    handed over, is the one `KdBufParser.parse` ends with on the same bytes (block loop / log loop; whatever the parser
+    object held before).  No first-byte hypothesis: the v3 reader has no padding skipper (K1 is a v2 defect). -/
+theorem e2e_dump_of_encoded_v3 (plist : Bytes → Option PView) (prior : PState) (f : V3File) (wf : f.WF)
+    (hcpu : plist f.cpu ≠ none) :
+    EndToEnd.dumpOf plist (encodeV3 f) =
+      .ok ({ threadMap := fileThreadMap f, events := f.recs.map specDecode },
+           (parse plist fromKdBuf prior (encodeV3 f)).err) := by
+  obtain ⟨rd, h⟩ := EndToEnd.dumpOf_encoded_v3 plist f wf hcpu
+  have hc := (EndToEnd.dumpOf_is_parse plist prior _ _ _ h).2.1
+  rw [h, hc, threadMapOf_entries]
+
+/-- … and when every block loads with the key its tag needs and the log records' strings are in the string index
+    (the hypotheses of `v3_blocks`), the container contributes no exception. -/
+theorem e2e_dump_of_encoded_v3_ok (plist : Bytes → Option PView) (f : V3File) (wf : f.WF) (hcpu : plist f.cpu ≠ none)
+    (hok : ∀ b ∈ blocksOf f, BlockOk plist b)
+    (hres : LogsResolve
+      (match lastOf TRACEV3_LOG_STRINGS (blocksOf f) with
+        | some p => invertIndex (itemsOf plist p)
+        | none => [])
+      ((payloadsOf TRACEV3_LOG_EVENTS (blocksOf f)).flatMap (eventsOf plist))) :
+    EndToEnd.dumpOf plist (encodeV3 f) =
+      .ok ({ threadMap := fileThreadMap f, events := f.recs.map specDecode }, none) := by
+  rw [e2e_dump_of_encoded_v3 plist EndToEnd.freshParser f wf hcpu,
+    (v3_blocks plist EndToEnd.freshParser f wf hcpu hok hres).1]
+
+/-- For every well-formed v3 file whose cpu_info payload loads the dump is readable and the trace layer receives the
+    thread-map chunk.  (If the cpu_info payload does not load, `parse_v3` raises before `set_thread_map`.) -/
+theorem e2e_threadmap_of_encoded_v3 (plist : Bytes → Option PView) (f : V3File) (wf : f.WF)
+    (hcpu : plist f.cpu ≠ none) :
+    ∃ d c, EndToEnd.dumpOf plist (encodeV3 f) = .ok (d, c) ∧ d.threadMap = fileThreadMap f :=
+  ⟨_, _, e2e_dump_of_encoded_v3 plist EndToEnd.freshParser f wf hcpu, rfl⟩
+
+/-- **The lines of an encoded v3 file.**  The lines `formatted_traces` yields for the file's bytes are the lines of the
+    line builder over `traces` of (the thread-map chunk, the decodings of the records of all chunks), and the iteration
+    ends with the first rendering exception, else the exception of the trace layer, else — after ALL lines — the
+    exception the container reader ends with in the blocks behind the last chunk. -/
+theorem e2e_lines_of_encoded_v3 (env : Trace.Env) (obj : TracePipeline.Obj) (sh : Format.Show)
+    (plist : Bytes → Option PView) (prior : PState) (f : V3File) (wf : f.WF) (hcpu : plist f.cpu ≠ none) :
+    let res := (TracePipeline.traces env obj
+      { threadMap := fileThreadMap f, events := f.recs.map specDecode }).1
+    EndToEnd.formattedTraces env obj sh plist (encodeV3 f) =
+      ((EndToEnd.formatAll sh res.traces).1,
+       match (EndToEnd.formatAll sh res.traces).2 with
+       | some e => some e
+       | none => match res.err with
+         | some e => some e
+         | none => (parse plist fromKdBuf prior (encodeV3 f)).err) := by
+  intro res
+  have h := e2e_dump_of_encoded_v3 plist prior f wf hcpu
+  exact Prod.ext (EndToEnd.formattedTraces_lines env obj sh plist _ _ _ h)
+    (EndToEnd.formattedTraces_err env obj sh plist _ _ _ h)
+
+/-- … with blocks that load (`v3_blocks`' hypotheses): the exception of the trace layer only. -/
+theorem e2e_lines_of_encoded_v3_ok (env : Trace.Env) (obj : TracePipeline.Obj) (sh : Format.Show)
+    (plist : Bytes → Option PView) (f : V3File) (wf : f.WF) (hcpu : plist f.cpu ≠ none)
+    (hok : ∀ b ∈ blocksOf f, BlockOk plist b)
+    (hres : LogsResolve
+      (match lastOf TRACEV3_LOG_STRINGS (blocksOf f) with
+        | some p => invertIndex (itemsOf plist p)
+        | none => [])
+      ((payloadsOf TRACEV3_LOG_EVENTS (blocksOf f)).flatMap (eventsOf plist))) :
+    let res := (TracePipeline.traces env obj
+      { threadMap := fileThreadMap f, events := f.recs.map specDecode }).1
+    EndToEnd.formattedTraces env obj sh plist (encodeV3 f) =
+      ((EndToEnd.formatAll sh res.traces).1,
+       match (EndToEnd.formatAll sh res.traces).2 with
+       | some e => some e
+       | none => res.err) := by
+  intro res
+  have h := e2e_lines_of_encoded_v3 env obj sh plist EndToEnd.freshParser f wf hcpu
+  rw [(v3_blocks plist EndToEnd.freshParser f wf hcpu hok hres).1] at h
+  rw [h]
+  refine Prod.ext rfl ?_
+  show (match (EndToEnd.formatAll sh res.traces).2 with
+        | some e => some e
+        | none => match res.err with
+          | some e => some e
+          | none => none) = _
+  cases (EndToEnd.formatAll sh res.traces).2 <;> cases res.err <;> rfl
+
+/-- **The lines do not depend on the chunking, the filler, the header or the blocks.**  Two well-formed v3 files with
+    the same thread-map entries and the same records in the same order — however split into chunks, whatever else
+    they contain — give the same formatted lines, for every filter configuration and column setting. -/
+theorem e2e_lines_chunking_v3 (env : Trace.Env) (obj : TracePipeline.Obj) (sh : Format.Show)
+    (plist : Bytes → Option PView) (f g : V3File) (wf : f.WF) (wg : g.WF) (hf : plist f.cpu ≠ none)
+    (hg : plist g.cpu ≠ none) (hth : f.threads = g.threads) (hrecs : f.recs = g.recs) :
+    (EndToEnd.formattedTraces env obj sh plist (encodeV3 f)).1 =
+      (EndToEnd.formattedTraces env obj sh plist (encodeV3 g)).1 := by
+  rw [e2e_lines_of_encoded_v3 env obj sh plist EndToEnd.freshParser f wf hf,
+    e2e_lines_of_encoded_v3 env obj sh plist EndToEnd.freshParser g wg hg]
+  simp only [fileThreadMap, hth, hrecs]
+
+/-- … and the same lines as the version-2 file with that thread map and those records (first record not beginning
+    with a zero byte: K1), whatever its padding. -/
+theorem e2e_lines_v3_eq_v2 (env : Trace.Env) (obj : TracePipeline.Obj) (sh : Format.Show)
+    (plist : Bytes → Option PView) (f : V3File) (g : V2File) (wf : f.WF) (wg : g.WF) (hf : plist f.cpu ≠ none)
+    (h0 : C02.FirstByteNonZero g) (hth : f.threads = g.threads) (hrecs : f.recs = g.recs) :
+    (EndToEnd.formattedTraces env obj sh plist (encodeV3 f)).1 =
+      (EndToEnd.formattedTraces env obj sh plist (encodeV2 g)).1 := by
+  rw [e2e_lines_of_encoded_v3 env obj sh plist EndToEnd.freshParser f wf hf,
+    C02.e2e_lines_of_encoded env obj sh plist g wg h0]
+  simp only [fileThreadMap, C02.fileThreadMap, hth, hrecs]
+
 /-! ### non-vacuity: a concrete dump with two chunks, a gap containing near-miss tag prefixes, and blocks -/
 
 def exRec (b : Nat) : Bytes := List.replicate 64 b
@@ -230,6 +354,78 @@ example :
     x.events = [specDecode (exRec 1), specDecode (exRec 2), specDecode (exRec 3)] ∧ x.err = none ∧
     x.md.traceCodes = [0x41, 0x0a, 0x42] ∧ x.tables.threadsPids = [(7, 100), (8, 100)] ∧
     x.md.header = some (exFile.hdr, exFile.cpu) := by
+  decide +kernel
+
+/-! #### non-vacuity of the end-to-end theorems -/
+
+/-- `plistlib.loads` for the examples: the cpu_info payload of `exFile` is a (non-empty) dict, nothing else loads. -/
+def exPlist : Bytes → Option PView := fun b => if b = [0x62, 0x70] then some ⟨false, [], none, none, none⟩ else none
+
+/-- `exFile` meets the hypotheses: thread map `a` / `é`, the three records of the two chunks. -/
+example :
+    EndToEnd.dumpOf exPlist (encodeV3 exFile) =
+      .ok ({ threadMap := fileThreadMap exFile, events := [specDecode (exRec 1), specDecode (exRec 2), specDecode (exRec 3)] },
+           (parse exPlist fromKdBuf EndToEnd.freshParser (encodeV3 exFile)).err) ∧
+    fileThreadMap exFile = [(7, 100, "a"), (8, 100, "é")] :=
+  ⟨e2e_dump_of_encoded_v3 exPlist _ exFile exFile_wf (by decide), by decide +kernel⟩
+
+/-- The thread map and the six records of `EndToEnd.exFile` (the version-2 example of C02 / C06 / C14) as a version-3
+    dump: two records in the first chunk (size remainder 5, a gap with a near-miss of the events tag), four in a
+    second chunk behind the MORE tag, then a trace-codes block and (last, unpadded) a processes block. -/
+def exFileLines : V3File :=
+  { exFile with
+    threads := EndToEnd.exFile.threads
+    first := ⟨[0, 0x1e, 0], 5, List.replicate 8 0, EndToEnd.exFile.recs.take 2⟩
+    more := [⟨[], 0, List.replicate 8 7, EndToEnd.exFile.recs.drop 2⟩]
+    blocks := [⟨TRACEV3_TRACE_CODES, [0x41, 0x0a], true⟩, ⟨TRACEV3_PROCESSES, [1, 2, 3], false⟩] }
+
+theorem exFileLines_wf : exFileLines.WF := by
+  obtain ⟨w1, w2, w3, w4, w5, w6, _, w8, _, w10, _, _, _⟩ := exFile_wf
+  have hr : ∀ r ∈ EndToEnd.exFile.recs, r.length = 64 ∧ IsBytes r := EndToEnd.exFile_wf.2.2.2.2
+  refine ⟨w1, w2, w3, w4, w5, w6, EndToEnd.exFile_wf.2.1, w8, by decide, ?_, ?_, ⟨Or.inl rfl, trivial⟩, ?_⟩
+  · intro c hc
+    simp only [exFileLines, List.mem_cons, List.not_mem_nil, or_false] at hc
+    rcases hc with rfl | rfl
+    · exact ⟨(w10 exFile.first (by simp)).1, by decide, by decide, by decide,
+        fun r hr' => hr r (List.mem_of_mem_take hr')⟩
+    · exact ⟨fun i hi => by simp at hi, by decide, by decide, by decide, fun r hr' => hr r (List.mem_of_mem_drop hr')⟩
+  · intro b hb
+    simp only [exFileLines, List.mem_cons, List.not_mem_nil, or_false] at hb
+    rcases hb with rfl | rfl <;> exact ⟨by decide, by decide⟩
+  · intro b hb
+    simp only [exFileLines, List.head?_cons, Option.some.injEq] at hb
+    subst hb
+    decide
+
+/-- same thread map, same records as the version-2 example: by `e2e_lines_v3_eq_v2` the same six lines, for every
+    environment, filter and column setting. -/
+example (env : Trace.Env) (obj : TracePipeline.Obj) (sh : Format.Show) :
+    (EndToEnd.formattedTraces env obj sh exPlist (encodeV3 exFileLines)).1 =
+      (EndToEnd.formattedTraces env obj sh exPlist (encodeV2 EndToEnd.exFile)).1 :=
+  e2e_lines_v3_eq_v2 env obj sh exPlist exFileLines EndToEnd.exFile exFileLines_wf EndToEnd.exFile_wf (by decide)
+    EndToEnd.exFile_first rfl (by decide +kernel)
+
+/-- the composition run on the bytes (kernel-evaluated): the six lines; the payload of the processes block does not
+    load, `plistlib`'s exception surfaces AFTER the last line; cut inside the last record (the second chunk's fourth): the first
+    five lines, then `struct.error`; cut inside the thread-map chunk: no line, `StreamError`; with a payload that
+    loads: no exception. -/
+example :
+    let file := encodeV3 exFileLines
+    EndToEnd.formattedTraces EndToEnd.exEnv {} {} exPlist file =
+      (["1 launchd(42)                       Process exit name: x",
+        "2 launchd(42)                       New thread 9 of parent: 50",
+        "3 (50)                              Process exit name: y",
+        "4 launchd(42)                       New thread of parent: new",
+        "5 new(50)                           Process exit name: z",
+        "6 Error: tid 8                      Process exit name: {"], some .valueError) ∧
+    (EndToEnd.formattedTraces EndToEnd.exEnv {} {} exPlist (file.take (file.length - 100))) =
+      (["1 launchd(42)                       Process exit name: x",
+        "2 launchd(42)                       New thread 9 of parent: 50",
+        "3 (50)                              Process exit name: y",
+        "4 launchd(42)                       New thread of parent: new",
+        "5 new(50)                           Process exit name: z"], some .structError) ∧
+    EndToEnd.formattedTraces EndToEnd.exEnv {} {} exPlist (file.take 150) = ([], some .streamError) ∧
+    (EndToEnd.formattedTraces EndToEnd.exEnv {} {} (fun _ => some ⟨false, [], none, none, none⟩) file).2 = none := by
   decide +kernel
 
 end KdVerif.C03
